@@ -1,0 +1,16 @@
+//go:build verif
+
+package parse
+
+// Contracts for govc (see /verif/DESIGN.md). Comments only.
+
+// C03 / C04: every id of a request is converted, in order; one unparsable id fails the whole list.
+//@ func UUIDsFromStrings(values) (ids, err)
+//@   property C03
+//@   nopanic
+//@   ensures all_converted: err == nil ==> len(ids) == len(values) && (forall i int :: {ids[i]} 0 <= i && i < len(values) ==> ids[i] == uuidparse(values[i]))
+//@   allocates E:uuid.UUID:
+//@   loop 1
+//@     invariant fresh_only("E:uuid.UUID:")
+//@     invariant len(ids) == len(values) && idx < len(values) && ids.base != 0 && !allocated(ids.base)
+//@     invariant forall i int :: {ids[i]} 0 <= i && i <= idx ==> ids[i] == uuidparse(values[i])
